@@ -52,5 +52,17 @@ path = os.path.join(HERE, 'benign', 'RESULTS.json')
 old = json.load(open(path)) if os.path.exists(path) else {}
 old.update(res)
 json.dump(old, open(path, 'w'), indent=1, sort_keys=True)
-bad = [b for b, r in old.items() if r['exit'] != 0]
+def _ack(key, r):
+    bid, prop = key.split('/') if '/' in key else (key, key.split('-')[0])
+    mp = os.path.join(HERE, 'benign', bid, 'meta.json')
+    if not os.path.exists(mp):
+        return False
+    a = json.load(open(mp)).get('acknowledged', {}).get(prop)
+    return bool(a) and a.get('exit') == r['exit'] and r['exit'] == 2 and 'VIOLATION' not in r.get('lines', '')      # only an UNDECIDED can be acknowledged, never a violation or a crash
+
+
+acked = [b for b, r in old.items() if r['exit'] != 0 and _ack(b, r)]
+bad = [b for b, r in old.items() if r['exit'] != 0 and not _ack(b, r)]
+if acked:
+    print('acknowledged as undecided (a restructured loop under a loop contract; see its meta.json): %s' % acked)
 print('%d behaviour-preserving changes, %d not quiet: %s' % (len(old), len(bad), bad))
